@@ -225,18 +225,26 @@ func fieldVariants(r *rand.Rand, v []byte) map[string][]byte {
 var variantOrder = []string{"nil", "empty", "equal", "diff-first", "diff-last", "diff-random", "short", "long"}
 
 func C08(c *core.Ctx) {
-	c.Rule = "quotes: structurally valid messages with mask-respecting XFAM/TD_ATTRIBUTES, every single XFAM and TD_ATTRIBUTES bit flipped, SVNs around each minimum; options: every field independently nil/empty/equal/differing in first,last,random byte/one short/one long, minimum SVNs at min-1,min,min+1,0,65535, TEE TCB SVN minima per component, RTMR lists of length 0..5 and allowed-MR_TD lists of length 0..4 with empty, matching, mismatching and wrongly sized entries, every expectation configured and met, then exactly one missed; random combinations, nil options, malformed messages; through validate.TdxQuote and validate.RawTdxQuote. non-trivial = message passes CheckQuoteV4 and options non-nil; distinct = distinct (message, options)"
+	c.Rule = "quotes: structurally valid messages with mask-respecting XFAM/TD_ATTRIBUTES, every single XFAM and TD_ATTRIBUTES bit flipped (also with that very value expected exactly), SVNs around each minimum; options: every field independently nil/empty/equal/differing in first,last,random byte/one short/one long, minimum SVNs at min-1,min,min+1,0,65535, TEE TCB SVN minima per component, RTMR lists of length 0..5 and allowed-MR_TD lists of length 0..4 with empty, matching, mismatching and wrongly sized entries, every expectation configured and met, then exactly one missed; random combinations, nil options, malformed messages; through validate.TdxQuote and validate.RawTdxQuote. non-trivial = message passes CheckQuoteV4 and options non-nil; distinct = distinct (message, options)"
 	r := c.Rng
 	run := func(class, desc string, q *pb.QuoteV4, o *validate.Options) {
 		if !c.Wanted() {
 			c.Add(&core.Case{Class: class, SkipModel: true, Impl: core.Ls()})
 			return
 		}
+		before := ""
+		if o != nil {
+			before = fmt.Sprintf("%x", *o)
+		}
 		err, pan := implValidate(q, o)
 		gt := ""
+		if o != nil && pan == nil && fmt.Sprintf("%x", *o) != before {
+			gt = "validation changed the caller's options (order or contents of its lists / byte strings)"
+		}
 		wellFormedMsg := q != nil && abi.CheckQuoteV4(q) == nil
 		if pan != nil {
 			gt = fmt.Sprintf("validate.TdxQuote panicked: %v", pan)
+		} else if gt != "" {
 		} else if o != nil && wellFormedMsg {
 			e := c08Expect(q, o)
 			switch {
@@ -337,6 +345,11 @@ func C08(c *core.Ctx) {
 		a := binary.LittleEndian.Uint64(q3.TdQuoteBody.TdAttributes) ^ (1 << uint(i))
 		binary.LittleEndian.PutUint64(q3.TdQuoteBody.TdAttributes, a)
 		run("tdattr-bit", fmt.Sprintf("TD_ATTRIBUTES bit %d flipped (%#x)", i, a), q3, &validate.Options{})
+		// the same illegal value, pinned exactly by the policy (an exact expectation must not switch the fixed-bit rules off)
+		run("xfam-bit-pinned", fmt.Sprintf("XFAM bit %d flipped (%#x) and expected exactly", i, x), q2,
+			&validate.Options{TdQuoteBodyOptions: validate.TdQuoteBodyOptions{Xfam: append([]byte{}, q2.TdQuoteBody.Xfam...)}})
+		run("tdattr-bit-pinned", fmt.Sprintf("TD_ATTRIBUTES bit %d flipped (%#x) and expected exactly", i, a), q3,
+			&validate.Options{TdQuoteBodyOptions: validate.TdQuoteBodyOptions{TdAttributes: append([]byte{}, q3.TdQuoteBody.TdAttributes...)}})
 		q4 := validQuoteMsg(r)
 		binary.LittleEndian.PutUint64(q4.TdQuoteBody.Xfam, 3|1<<uint(i))
 		run("xfam-bit", fmt.Sprintf("XFAM = 3 | bit %d", i), q4, &validate.Options{})
